@@ -18,7 +18,7 @@ EXPLANATION = (
     'them into a BTreeMap keyed by the index; R20.d the registry and ContainerFormat::Enum are BTreeMaps; R20.e (thorough) the vendored '
     'serde rename-rule table and the vendored serde-reflection Format types agree with the pinned dependencies. NOT decided: closedness '
     '(depends on the input), agreement with serde-reflection\'s tracing, invariance of the datalog evaluation under crate loading order, '
-    'and which type wins when two share a name.')
+    'and which type wins when two share a name. R20.f a pairwise node predicate answers true only behind an equality of the crate names.')
 
 ID_TOKENS = ('.id', '.crate_id')
 ORDER_OPS = ('Lt', 'Le', 'Gt', 'Ge', 'Add', 'Sub', 'Mul', 'Div', 'Rem', 'Shl', 'Shr', 'AddWithOverflow', 'SubWithOverflow',
